@@ -73,7 +73,8 @@ def rotation_case(draw):
             return draw(st.integers(-12, 12)) * (math.pi / 2)
         return draw(st.floats(-20, 20, allow_nan=False, allow_infinity=False))
     return {"kind": kind, "axis": (d * 10.0 ** u).tolist(), "theta": angle(),
-            "theta2": angle(), "lam": 10.0 ** draw(st.floats(-3, 3, allow_nan=False))}
+            "theta2": angle(), "lam": 10.0 ** draw(st.floats(-3, 3, allow_nan=False)),
+            "reuse_axis": draw(st.integers(0, 3)) == 0}
 
 
 def check_rotation(case):
@@ -84,6 +85,12 @@ def check_rotation(case):
         axis = np.array(case["axis"], dtype=np.int64)
     elif arepr in ("int32-array", "int16-array", "int8-array"):
         axis = np.array(case["axis"], dtype={"int32-array": np.int32, "int16-array": np.int16, "int8-array": np.int8}[arepr])
+    if case.get("reuse_axis") and axis.dtype == np.float64:
+        # one axis buffer, overwritten in place between two calls
+        real = axis.copy()
+        axis[:] = real[[1, 2, 0]] * np.array([1.0, -2.0, 0.5]) + np.array([0.25, 0.0, -0.75]) * np.linalg.norm(real)
+        lib("rotation-prior", gaddlemaps.rotation_matrix, axis, th)
+        axis[:] = real
     axis_before = axis.copy()
     R = np.asarray(lib("rotation", gaddlemaps.rotation_matrix, axis, th), dtype=float)
     if R.shape != (3, 3) or not np.all(np.isfinite(R)):
